@@ -187,6 +187,108 @@ theorem sort_sorted (cmp : Val → Val → Cmp) (g : GoodCmp cmp) (xs : List Val
   unfold Impl.sort
   exact sortLoop_sorted cmp g [] xs (by simp [RSorted])
 
+/-! ### sorting numbers of every magnitude (ints beyond 2^53 included)
+
+Strengthened after a missed seeded change (`object.Sort` sorting lists of numbers through
+precomputed float64 keys, which cannot tell 2^53 from 2^53+1 or MaxInt64-1 from MaxInt64). -/
+
+/-- **Numbers compare by their exact values**: for every heap and any two numbers — ints of
+    ANY magnitude, bytes, (half-integer) floats, in any combination — the comparator
+    `object.Sort` hands to `sort.SliceStable` is "less by exact value" (`keyOf` = twice the
+    value): never an error, and two different ints are never treated as equal. -/
+theorem compare_numbers_exact (h : Heap) (fuel : Nat) (a b : Val) (ha : isNum a = true) (hb : isNum b = true) :
+    cmpVal h fuel a b = (if keyOf a < keyOf b then .lt else .ge) :=
+  cmpVal_num h fuel a b ha hb
+
+/-- **Sorting a list of numbers sorts it by exact value**, for every heap and every list of
+    numbers of any length and any magnitude: `sort` reports no error; the result is ascending
+    by exact value (so of two different ints the smaller one comes first, however close to
+    ±2^63 they are); it is a permutation of the input; and it is stable — for every value the
+    items having that value are the same, in input order (`2`, `2.0` and `byte(2)` keep their
+    relative order). Together: the result satisfies the reference reading `Spec.isSortOf`. -/
+theorem sort_numbers_exact (h : Heap) (xs : List Val) (hn : xs.all isNum = true) :
+    (Impl.sort (hcmp h) xs).2 = .ge ∧
+    (Impl.sort (hcmp h) xs).1.Pairwise (fun a b => keyOf a ≤ keyOf b) ∧
+    (Impl.sort (hcmp h) xs).1.Perm xs ∧
+    (∀ v, Spec.sameValue v (Impl.sort (hcmp h) xs).1 = Spec.sameValue v xs) ∧
+    Spec.isSortOf xs (Impl.sort (hcmp h) xs).1 = true := by
+  rw [sort_num_eq h xs hn]
+  refine ⟨(sort_key_pairwise xs).1, (sort_key_pairwise xs).2, sort_perm _ xs, ?_, sort_key_isSortOf xs⟩
+  intro v
+  have := sortLoop_sameValue v [] xs .ge
+  simpa [Impl.sort] using this
+
+/-- **Neighbouring ints are told apart at every magnitude**: for EVERY integer `i` (no bound:
+    2^53, MaxInt64-1, …) sorting `[i+1, i]` gives `[i, i+1]`. -/
+theorem sort_tells_neighbours_apart (h : Heap) (i : Int) :
+    Impl.sort (hcmp h) [.int (i + 1), .int i] = ([.int i, .int (i + 1)], .ge) := by
+  rw [sort_num_eq h _ (by simp [isNum, numKey])]
+  have hk : keyOf (.int i) < keyOf (.int (i + 1)) := by
+    show 2 * i < 2 * (i + 1)
+    omega
+  have h1 : keyCmp (.int i) (.int (i + 1)) = .lt := by unfold keyCmp; rw [if_pos hk]
+  simp [Impl.sort, Impl.sortLoop, Impl.ins, h1]
+
+/-- the reference reading determines the result: ascending lists with the same items per
+    value in the same order are equal — stated on the keys: two ascending arrangements of
+    the same multiset of ints are the same list -/
+theorem ascending_ints_unique (xs ys : List Int) (hx : xs.Pairwise (· ≤ ·)) (hy : ys.Pairwise (· ≤ ·))
+    (hp : xs.Perm ys) : xs = ys :=
+  List.Perm.eq_of_pairwise (le := (· ≤ ·)) (fun _ _ _ _ h1 h2 => Int.le_antisymm h1 h2) hx hy hp
+
+/-- **`l.sort()` on the machine**: for every heap and every list object holding numbers only,
+    in both readings of the machine, the step succeeds, changes no other object than `r`, and
+    leaves in `r` the reference sort of its former content. -/
+theorem lsort_numbers (m : Mode) (h : Heap) (r : Nat) (xs : List Val) (hg : h.get r = .list xs)
+    (hn : xs.all isNum = true) :
+    ∃ ys, step m h (.lSort r) = (h.put r (.list ys), .unit) ∧ Spec.isSortOf xs ys = true ∧ ys.Perm xs := by
+  have hs := sort_numbers_exact h xs hn
+  refine ⟨(Impl.sort (hcmp h) xs).1, ?_, hs.2.2.2.2, hs.2.2.1⟩
+  simp only [step, hg]
+  cases hsort : Impl.sort (hcmp h) xs with
+  | mk ys c =>
+    have hc : c = .ge := by have := hs.1; rw [hsort] at this; exact this
+    subst hc; rfl
+
+/-- **`sorted(l)` / `l.sorted()` on the machine**: same for the two non-mutating forms — the
+    heap only grows by one new list, which is the reference sort of the operand's content. -/
+theorem sorted_numbers (m : Mode) (h : Heap) (r : Nat) (xs : List Val) (hg : h.get r = .list xs)
+    (hn : xs.all isNum = true) :
+    ∃ ys, step m h (.lSorted r) = newList h ys ∧ step m h (.bi (.sorted r)) = newList h ys ∧
+      Spec.isSortOf xs ys = true ∧ ys.Perm xs := by
+  have hs := sort_numbers_exact h xs hn
+  refine ⟨(Impl.sort (hcmp h) xs).1, ?_, ?_, hs.2.2.2.2, hs.2.2.1⟩
+  · simp only [step, hg]
+    cases hsort : Impl.sort (hcmp h) xs with
+    | mk ys c =>
+      have hc : c = .ge := by have := hs.1; rw [hsort] at this; exact this
+      subst hc; rfl
+  · have hi : sortItems h r = xs := by simp [sortItems, hg]
+    simp only [step, stepB, hi]
+    cases hsort : Impl.sort (hcmp h) xs with
+    | mk ys c =>
+      have hc : c = .ge := by have := hs.1; rw [hsort] at this; exact this
+      subst hc; rfl
+
+/-- what a float64 sees of large ints: 2^53+1 collapses onto 2^53, MaxInt64 and MaxInt64-1
+    onto 2^63 (checked values of the rounding model `f64OfInt`) -/
+theorem f64_collapses_large_ints :
+    f64OfInt 9007199254740993 = f64OfInt 9007199254740992 ∧
+    f64OfInt 9223372036854775807 = f64OfInt 9223372036854775806 ∧
+    f64OfInt (-9007199254740993) = f64OfInt (-9007199254740992) := by decide
+
+/-- **Sorting numbers through float64 keys is no sort**: the full statement "for every list
+    of numbers the arrangement left by a sort whose comparator looks at `float64(int)` is the
+    reference sort" is false — `[2^53+1, 2^53]` stays as it is. (`sort_numbers_exact` is this
+    statement for the comparator the code has.) -/
+def C16_full_float_key_sort : Prop :=
+  ∀ xs : List Val, xs.all isNum = true → Spec.isSortOf xs (Impl.sort f64KeyCmp xs).1 = true
+
+theorem C16_float_keys_do_not_sort : ¬ C16_full_float_key_sort := by
+  intro hf
+  have := hf [.int 9007199254740993, .int 9007199254740992] (by decide)
+  revert this; decide
+
 /-- on ints the machine's comparator is such a key comparator -/
 theorem cmpVal_int (h : Heap) (f : Nat) (x y : Int) : cmpVal h f (.int x) (.int y) = if x < y then .lt else .ge := by
   simp only [cmpVal, cmp3, three]
